@@ -123,14 +123,18 @@ Target gen_target(Src& s, bool want_bounded, bool centred = false)
 	return T;
 }
 // Kolmogorov-Smirnov: P(sqrt(n) D > x) ~ 2 exp(-2 x^2); significance 1e-9 -> x = 3.274
-void ks_test(Ctx& c, const char* what, std::vector<double> v, const std::function<double(double)>& cdf)
+// ess_factor < 1 deflates the sample size for a correlated chain (AR(1) estimate (1-rho)/(1+rho)); every value must be a finite number
+void ks_test(Ctx& c, const char* what, std::vector<double> v, const std::function<double(double)>& cdf, double ess_factor = 1.0)
 {
+	for(double x : v)
+		VCHECK(std::isfinite(x), what << ": the sample contains the non-finite value " << x);
 	std::sort(v.begin(), v.end());
-	double n = (double) v.size(), D = 0;
+	double n = (double) v.size() * ess_factor, D = 0;
+	VCHECK(n >= 1, what << ": no effective sample (n=" << v.size() << ", effective fraction " << ess_factor << ")");
 	for(size_t i = 0; i < v.size(); i++)
 	{
-		double F = cdf(v[i]);
-		D		 = std::max(D, std::max(F - (double) i / n, (double) (i + 1) / n - F));
+		double F = cdf(v[i]), N = (double) v.size();
+		D		 = std::max(D, std::max(F - (double) i / N, (double) (i + 1) / N - F));
 	}
 	double stat = D * (std::sqrt(n) + 0.12 + 0.11 / std::sqrt(n));
 	c.ratio("ks_statistic/critical", stat / 3.274);
@@ -158,8 +162,7 @@ void chi2_test(Ctx& c, const char* what, const std::vector<double>& obs, const s
 		po.back() += ao;
 		pe.back() += ae;
 	}
-	if(pe.size() < 2)
-		return;
+	VCHECK(pe.size() >= 2, "harness: " << what << ": fewer than two pooled bins, nothing would be tested");
 	double chi2 = 0;
 	for(size_t i = 0; i < pe.size(); i++)
 		chi2 += (po[i] - pe[i]) * (po[i] - pe[i]) / pe[i];
@@ -177,6 +180,18 @@ void moment_test(Ctx& c, const char* what, const std::vector<double>& v, double 
 	double z = std::fabs(m - mean) / (sd / std::sqrt(n * ess_factor));
 	c.ratio("mean_z/6.1", z / 6.1);
 	VCHECK(z <= 6.1, what << ": sample mean " << m << " is " << z << " standard errors from " << mean << " (n=" << v.size() << ")");
+}
+void inside_test(Ctx& c, const char* what, const std::vector<double>& v, double lo, double hi)
+{
+	long out = 0;
+	double worst = 0;
+	for(double x : v)
+		if(!(x >= lo && x <= hi))
+		{
+			out++;
+			worst = x;
+		}
+	VCHECK(out == 0, what << ": " << out << " of " << v.size() << " samples outside the requested support [" << lo << "," << hi << "], e.g. " << worst);
 }
 int sample_size(Src& s) { return s.size > 100 ? (int) s.range(50000, 200000) : (int) s.range(12000, 30000); }
 }	// namespace
@@ -445,6 +460,7 @@ VCLAUSE(law_general, 60, 600, 6000, "a loose rejection envelope (yMax >= 10 max 
 		VLOG(c, "Inverse_Transform_Sampling of " << T.name << " on [" << T.lo << "," << T.hi << "] n=" << n);
 		std::vector<double> v((size_t) n);
 		VMUST_RETURN("Inverse_Transform_Sampling", for(auto& x : v) x = Inverse_Transform_Sampling(T.cdf, T.lo, T.hi, g));
+		inside_test(c, "Inverse_Transform_Sampling", v, T.lo, T.hi);
 		ks_test(c, "Inverse_Transform_Sampling", v, T.cdf);
 	}
 	else if(which == 1)
@@ -458,6 +474,7 @@ VCLAUSE(law_general, 60, 600, 6000, "a loose rejection envelope (yMax >= 10 max 
 		VLOG(c, "Rejection_Sampling of " << T.name << " on [" << T.lo << "," << T.hi << "] envelope " << env << " x max pdf, n=" << n);
 		std::vector<double> v((size_t) n);
 		VMUST_RETURN("Rejection_Sampling", for(auto& x : v) x = Rejection_Sampling(T.pdf, T.lo, T.hi, T.pdf_max * env, g));
+		inside_test(c, "Rejection_Sampling", v, T.lo, T.hi);
 		ks_test(c, "Rejection_Sampling", v, T.cdf);
 	}
 	else if(which == 2)
@@ -471,6 +488,8 @@ VCLAUSE(law_general, 60, 600, 6000, "a loose rejection envelope (yMax >= 10 max 
 		std::function<double(double, double)> pdf2 = [=](double x, double y) { double t = (y - y0) / (y1 - y0); return T.pdf(x) * ((t < 0 || t > 1) ? 0.0 : (1 + t) / 1.5 / (y1 - y0)); };
 		std::vector<double> vx((size_t) n), vy((size_t) n);
 		VMUST_RETURN("Rejection_Sampling_2D", for(int i = 0; i < n; i++) { auto p = Rejection_Sampling_2D(g, pdf2, T.lo, T.hi, y0, y1, T.pdf_max * 2 / 1.5 / (y1 - y0) * env); vx[(size_t) i] = p.first; vy[(size_t) i] = p.second; });
+		inside_test(c, "Rejection_Sampling_2D (x)", vx, T.lo, T.hi);
+		inside_test(c, "Rejection_Sampling_2D (y)", vy, y0, y1);
 		ks_test(c, "Rejection_Sampling_2D (x marginal)", vx, T.cdf);
 		ks_test(c, "Rejection_Sampling_2D (y marginal)", vy, [=](double y) { double t = std::min(1.0, std::max(0.0, (y - y0) / (y1 - y0))); return (t + t * t / 2) / 1.5; });
 		// independence: chi-square on a 4x4 grid of the two probability transforms
@@ -529,14 +548,17 @@ VCLAUSE(law_general, 60, 600, 6000, "a loose rejection envelope (yMax >= 10 max 
 			if(i + 1 < n)
 				cov += (v[(size_t) i] - m) * (v[(size_t) i + 1] - m);
 		}
+		VCHECK(var > 0, "all " << n << " Metropolis samples are identical (" << m << "): the chain never moved");
 		double rho = cov / var;
 		c.ratio("lag1_autocorrelation/0.15", std::fabs(rho) / 0.15);
 		if(std::fabs(rho) < 0.1)
 			ks_test(c, "Sample_Metropolis", v, T.cdf);
 		else
 		{
+			// a correlated chain still has the target law: the same test with the effective sample size of an AR(1) chain
 			c.cls("metropolis_correlated");
-			moment_test(c, "Sample_Metropolis (correlated chain, effective sample size corrected)", v, bounded ? 0 : T.mean, bounded ? 1 : T.sd, bounded ? 0 : (1 - std::fabs(rho)) / (1 + std::fabs(rho)));
+			VCHECK(std::fabs(rho) < 0.9, "Sample_Metropolis: lag-1 autocorrelation " << rho << " after thinning by " << thin << " with a proposal of the target's width: the chain hardly moves");
+			ks_test(c, "Sample_Metropolis (correlated chain, effective sample size corrected)", v, T.cdf, (1 - std::fabs(rho)) / (1 + std::fabs(rho)));
 		}
 	}
 	else
